@@ -28,7 +28,7 @@ use std::thread;
 
 use cfg_if::cfg_if;
 use crossbeam_channel as cbc;
-use libfs::copy_node;
+use libfs::{copy_node, is_same_file};
 use log::{error, info};
 use blocking_threadpool::{Builder, ThreadPool};
 
@@ -242,6 +242,11 @@ fn dispatch_worker(file_q: cbc::Receiver<Operation>, stats: &Arc<dyn StatusUpdat
                 if to.exists() {
                     if config.no_clobber {
                         return Err(XcpError::DestinationExists("Destination file exists and --no-clobber is set.", to).into());
+                    }
+                    // The entry may be the source itself under another
+                    // spelling; removing it would delete the source.
+                    if is_same_file(&from, &to)? {
+                        return Err(XcpError::InvalidDestination("Source and destination are the same file.").into());
                     }
                     remove_file(&to)?;
                 }
